@@ -75,20 +75,37 @@ def extract():
     b = strip_comments(read("cstree/src/green/builder.rs"))
     m = re.search(r"const\s+CHILDREN_CACHE_THRESHOLD\s*:\s*usize\s*=\s*([0-9_]+)\s*;", b)
     facts["childrenCacheThreshold"] = int(m.group(1).replace("_", "")) if m else None
-    # which comparison guards the cached path
-    m = re.search(r"children\.len\(\)\s*(<=|<)\s*CHILDREN_CACHE_THRESHOLD", b)
-    if m and m.group(1) == "<" and facts["childrenCacheThreshold"] is not None:
-        facts["childrenCacheThreshold"] -= 1
-    if not m:
+    # which comparison guards the cached path (`children.len() <= T` then the cache, or the mirrored / negated early exit
+    # `children.len() > T` / `T < children.len()` then the plain node); anything else is left to the dynamic observation
+    lenx = r"(?:children\s*\.\s*len\s*\(\s*\)|\w+)"
+    m = re.search(r"if\s+children\.len\(\)\s*(<=|<)\s*CHILDREN_CACHE_THRESHOLD", b)
+    m_neg = re.search(r"if\s+" + lenx + r"\s*(>=|>)\s*CHILDREN_CACHE_THRESHOLD\s*\{\s*(?:let[^;]*;\s*)*return\b", b) or \
+        re.search(r"if\s+CHILDREN_CACHE_THRESHOLD\s*(<=|<)\s*" + lenx + r"\s*\{\s*(?:let[^;]*;\s*)*return\b", b)
+    if m:
+        if m.group(1) == "<" and facts["childrenCacheThreshold"] is not None:
+            facts["childrenCacheThreshold"] -= 1
+    elif m_neg:
+        # uncached iff len > T (or len >= T): cached iff len <= T (len <= T - 1)
+        if m_neg.group(1) in (">=", "<=") and facts["childrenCacheThreshold"] is not None:
+            facts["childrenCacheThreshold"] -= 1
+    else:
         facts["childrenCacheThreshold"] = None
     # does a node-cache hit compare the children?  (behaviour; validated by correspondence under
     # forced collisions — this flag only selects which model variant the driver runs)
     g = body_of(b, r"fn\s+get_cached_node\s*[<(]")
     cmp_children = False
     if g is not None:
-        # any equality test that mentions the candidate children inside the lookup
-        if re.search(r"children[^;]*(==|\.eq\(|\.all\(|\.zip\()", g) or re.search(r"(==|\.eq\(|\.all\(|\.zip\()[^;]*children", g):
-            cmp_children = True
+        # any equality test that mentions the candidate children inside the lookup, or inside a helper the lookup hands the
+        # children to
+        eqpat = r"(==|\.eq\(|\.all\(|\.zip\()"
+        bodies = [g]
+        for h in set(re.findall(r"\b([a-z_][a-z0-9_]*)\s*\([^;{}]*children[^;{}]*\)", g)):
+            hb = body_of(b, r"fn\s+" + re.escape(h) + r"\s*[<(]")
+            if hb is not None and hb is not g:
+                bodies.append(hb)
+        for bd in bodies:
+            if re.search(r"children[^;]*" + eqpat, bd) or re.search(eqpat + r"[^;]*children", bd):
+                cmp_children = True
     facts["nodeCacheComparesChildren"] = cmp_children
 
     # ---- interning ---------------------------------------------------------------------------
@@ -119,24 +136,30 @@ def extract():
             n_idx = rust_int(e)
     facts["nIndices"] = n_idx
     m = re.search(r"id_set\.len\(\)\s*(>=|>)\s*N_INDICES", d)
+    m_rev = re.search(r"N_INDICES\s*(<=|<)\s*(?:self\s*\.\s*)?id_set\.len\(\)", d)
     if m and m.group(1) == ">" and n_idx is not None:
         facts["nIndices"] = n_idx + 1
-    if not m:
+    elif m_rev and m_rev.group(1) == "<" and n_idx is not None:
+        facts["nIndices"] = n_idx + 1
+    if not m and not m_rev:
         facts["nIndices"] = None
     # ---- syntax/token.rs: debug abbreviation window ---------------------------------------------
     t = strip_comments(read("cstree/src/syntax/token.rs"))
     wd = body_of(t, r"fn\s+write_debug\s*<")
     thr = lo = hi = None
     if wd:
-        m = re.search(r"text\.len\(\)\s*<\s*([0-9_]+)", wd)
+        m = re.search(r"text\.len\(\)\s*<\s*([0-9_]+)", wd) or re.search(r"([0-9_]+)\s*>\s*text\.len\(\)", wd)
         if m:
             thr = rust_int(m.group(1))
-        m = re.search(r"for\s+\w+\s+in\s+([0-9_]+)\s*\.\.\s*([0-9_]+)", wd)
-        if m:
-            lo, hi = rust_int(m.group(1)), rust_int(m.group(2))
-        m2 = re.search(r"for\s+\w+\s+in\s+([0-9_]+)\s*\.\.=\s*([0-9_]+)", wd)
-        if m2:
-            lo, hi = rust_int(m2.group(1)), rust_int(m2.group(2)) + 1
+        else:
+            m = re.search(r"text\.len\(\)\s*>=\s*([0-9_]+)", wd) or re.search(r"([0-9_]+)\s*<=\s*text\.len\(\)", wd)
+            if m:
+                thr = rust_int(m.group(1))
+        # the window of candidate cut positions: the one literal integer range of the function (a `for` loop or an
+        # iterator adaptor over it)
+        rs = re.findall(r"(?<![\w\]\.])\(?\s*([0-9_]+)\s*\.\.(=?)\s*([0-9_]+)\s*\)?", wd)
+        if len(rs) == 1:
+            lo, hi = rust_int(rs[0][0]), rust_int(rs[0][2]) + (1 if rs[0][1] else 0)
     facts["debugAbbrevThreshold"], facts["debugWindowLo"], facts["debugWindowHi"] = thr, lo, hi
 
     # ---- thread-safety markers ---------------------------------------------------------------
@@ -246,44 +269,81 @@ def extract():
     for (fn, key) in (("set_data", "dataSetW"), ("try_set_data", "dataTrySetW"), ("get_data", "dataGetW"), ("clear_data", "dataClearW")):
         ls = data_locks(fn)
         modes[fn] = ls
-        facts[key] = (ls == ["write"])
-    facts["dataOneSectionPerOp"] = all(ls is not None and len(ls) == 1 and ls[0] in ("write", "read") for ls in modes.values())
+        facts[key] = None if not ls else (ls == ["write"])
+    facts["dataOneSectionPerOp"] = None if any(not ls for ls in modes.values()) else all(len(ls) == 1 and ls[0] in ("write", "read") for ls in modes.values())
     # the slot is only reachable through its lock (the lock owns the value)
     facts["dataSlotInsideLock"] = bool(re.search(r"data\s*:\s*RwLock\s*<\s*Option\s*<\s*Arc\s*<\s*D\s*>\s*>\s*>", no_hooks))
     # ---- child slots: a candidate is installed only into an empty slot ----------------------------
     twn = body_of(no_hooks, r"fn\s+try_write\s*\(")
-    facts["slotInstallOnlyIfEmpty"] = bool(twn and re.search(
-        r"if\s+(?:slot\s*\.\s*is_none\s*\(\s*\)|unsafe\s*\{\s*\(\s*\*\s*slot\s*\)\s*\.\s*is_none\s*\(\s*\)\s*\})\s*\{\s*"
-        r"(?:\*\s*slot\s*=\s*Some\s*\(\s*elem\s*\)\s*;|unsafe\s*\{\s*\*\s*slot\s*=\s*Some\s*\(\s*elem\s*\)\s*\}\s*;)\s*\}\s*else\s*\{", twn))
-    facts["slotAssignments"] = len(re.findall(r"\*\s*slot\s*=", no_hooks))
+    def test(which):
+        return r"(?:\w+\s*\.\s*" + which + r"\s*\(\s*\)|unsafe\s*\{\s*\(\s*\*\s*\w+\s*\)\s*\.\s*" + which + r"\s*\(\s*\)\s*\})"
+    assign = r"(?:\*\s*\w+\s*=\s*Some\s*\(\s*\w+\s*\)\s*;|unsafe\s*\{\s*\*\s*\w+\s*=\s*Some\s*\(\s*\w+\s*\)\s*\}\s*;)"
+    if twn and len(re.findall(r"=\s*Some\s*\(", twn)) == 1:
+        if re.search(r"if\s+" + test("is_none") + r"\s*\{\s*" + assign + r"\s*\}\s*else\s*\{", twn):
+            facts["slotInstallOnlyIfEmpty"] = True
+        elif re.search(r"if\s+" + test("is_some") + r"\s*\{", twn) and re.search(r"\}\s*else\s*\{\s*" + assign + r"\s*\}\s*\}\s*$", twn):
+            facts["slotInstallOnlyIfEmpty"] = True
+        else:
+            facts["slotInstallOnlyIfEmpty"] = None
+    else:
+        facts["slotInstallOnlyIfEmpty"] = None
+    # assignments to a child slot: `*x = ..` where `x` was bound from the cell's `.get()` (not from a lock guard)
+    def fn_bodies(src):
+        out = []
+        for m in re.finditer(r"\bfn\s+\w+", src):
+            bd = body_of(src[m.start():], r"\bfn\s+\w+")
+            if bd:
+                out.append(bd)
+        return out
+    n_assign = 0
+    n_sites = 0
+    for bd in fn_bodies(no_hooks):
+        cells = set()
+        for m in re.finditer(r"let\s+(?:mut\s+)?(\w+)\s*(?::[^=;]*)?=\s*([^;]*);", bd):
+            if re.search(r"\.\s*get\s*\(\s*\)", m.group(2)) and not re.search(r"\.\s*(?:write|read)\s*\(\s*\)", m.group(2)):
+                cells.add(m.group(1))
+        for c in cells:
+            n_assign += len(re.findall(r"\*\s*" + re.escape(c) + r"\s*=(?!=)", bd))
+        if re.search(r"children", bd):
+            # every dereference of a cell (bound to a name or not)
+            n_sites += len(re.findall(r"\.\s*get\s*\(\s*\)", bd))
+    facts["slotAssignments"] = n_assign
     # lock modes of the slot accesses: `read` takes the slot's lock shared, `try_write` and the teardown exclusively,
     # and nothing else touches `children`
     rd = body_of(no_hooks, r"fn\s+read\s*\(\s*&self\s*,\s*index")
     dr = body_of(no_hooks, r"fn\s+drop_recursive\s*\(")
     def lock_calls(b):
-        return re.findall(r"child_locks\s*\.\s*get_unchecked\s*\(\s*\w+\s*\)\s*\.\s*(read|write|try_read|try_write|upgradable_read)\s*\(", b or "")
-    facts["slotReadUnderReadLock"] = lock_calls(rd) == ["read"]
-    facts["slotWriteUnderWriteLock"] = lock_calls(twn) == ["write"]
-    facts["teardownUnderWriteLock"] = lock_calls(dr) == ["write"]
+        """lock acquisitions (argument-less `.read()` / `.write()` ...) in a body that mentions the slot locks"""
+        if not b or "child_locks" not in b:
+            return []
+        return re.findall(r"\.\s*(read|write|try_read|try_write|upgradable_read)\s*\(\s*\)", b)
+    def mode_fact(b, want):
+        ls = lock_calls(b)
+        return None if not ls else ls == [want]
+    facts["slotReadUnderReadLock"] = mode_fact(rd, "read")
+    facts["slotWriteUnderWriteLock"] = mode_fact(twn, "write")
+    facts["teardownUnderWriteLock"] = mode_fact(dr, "write")
     # the shape of the recursive teardown (model: Teardown.tearSlot / tearL / tearRoot)
     def order(body, pats):
+        """True / False: all landmarks found, in / out of order; None: a landmark is missing (shape not recognised)"""
         pos = []
         for pat in pats:
             m = re.search(pat, body or "")
             if not m:
-                return False
+                return None
             pos.append(m.start())
         return pos == sorted(pos) and len(set(pos)) == len(pos)
-    facts["teardownLoopsAllSlots"] = bool(re.search(r"for\s+(\w+)\s+in\s+0\s*\.\.\s*data\s*\.\s*children\s*\.\s*len\s*\(\s*\)", dr or ""))
-    facts["teardownChildrenFirst"] = order(dr, [r"child_locks", r"if\s+let\s+Some\s*\(\s*NodeOrToken::Node\s*\(\s*node\s*\)\s*\)\s*=\s*slot",
-                                               r"node\s*\.\s*drop_recursive\s*\(\s*\)", r"child_data\s*=\s*Some\s*\(\s*node\s*\.\s*data\s*\)",
-                                               r"\*\s*slot\s*=\s*None", r"if\s+let\s+Some\s*\(\s*data\s*\)\s*=\s*child_data", r"Box::from_raw\s*\(\s*data\s*\.\s*as_ptr\s*\(\s*\)\s*\)"]) \
-        and len(re.findall(r"Box::from_raw", dr or "")) == 1 and len(re.findall(r"drop_recursive\s*\(", dr or "")) == 1
+    facts["teardownLoopsAllSlots"] = True if re.search(r"for\s+(\w+)\s+in\s+0\s*\.\.\s*data\s*\.\s*children\s*\.\s*len\s*\(\s*\)", dr or "") else None
+    o = order(dr, [r"child_locks", r"if\s+let\s+Some\s*\(\s*NodeOrToken::Node\s*\(\s*node\s*\)\s*\)\s*=\s*slot",
+                   r"node\s*\.\s*drop_recursive\s*\(\s*\)", r"child_data\s*=\s*Some\s*\(\s*node\s*\.\s*data\s*\)",
+                   r"\*\s*slot\s*=\s*None", r"if\s+let\s+Some\s*\(\s*data\s*\)\s*=\s*child_data", r"Box::from_raw\s*\(\s*data\s*\.\s*as_ptr\s*\(\s*\)\s*\)"])
+    facts["teardownChildrenFirst"] = None if o is None else (o and len(re.findall(r"Box::from_raw", dr or "")) == 1 and len(re.findall(r"drop_recursive\s*\(", dr or "")) == 1)
     dp = body_of(no_hooks, r"impl\s*<\s*S\s*:\s*Syntax\s*,\s*D\s*>\s*Drop\s+for\s+SyntaxNode")
-    facts["teardownRootLast"] = order(dp, [r"fetch_sub", r"root\s*\.\s*drop_recursive\s*\(\s*\)", r"drop\s*\(\s*root\s*\)",
-                                          r"Box::from_raw\s*\(\s*root_data\s*\.\s*as_ptr\s*\(\s*\)\s*\)", r"Box::from_raw\s*\(\s*ref_count\s*\)"]) \
-        and len(re.findall(r"Box::from_raw", dp or "")) == 2
-    facts["slotCellAccessSites"] = len(re.findall(r"children\s*\.\s*get_unchecked\s*\(\s*\w+\s*\)\s*\.\s*get\s*\(\s*\)", no_hooks))
+    o = order(dp, [r"fetch_sub", r"root\s*\.\s*drop_recursive\s*\(\s*\)", r"drop\s*\(\s*root\s*\)",
+                   r"Box::from_raw\s*\(\s*root_data\s*\.\s*as_ptr\s*\(\s*\)\s*\)", r"Box::from_raw\s*\(\s*ref_count\s*\)"])
+    facts["teardownRootLast"] = None if o is None else (o and len(re.findall(r"Box::from_raw", dp or "")) == 2)
+    # places that reach into a child slot's cell (`.get()` of the `UnsafeCell`): one each in `read`, `try_write`, the teardown
+    facts["slotCellAccessSites"] = n_sites
 
     # ---- derive macro: comparator of the generated range assertion ------------------------------
     dl = strip_comments(read("cstree-derive/src/lib.rs"))
@@ -355,8 +415,23 @@ def write_if_changed(path, text):
     return old != text
 
 
+# facts that can also be *observed* on instrumented executions (`harness facts`): used when the pattern does not match
+DYNAMIC = ["cloneAmount", "dropAmount", "loserNodeComp", "loserTokenComp", "teardownWhenPrev", "slotReadUnderReadLock",
+           "slotWriteUnderWriteLock", "teardownUnderWriteLock", "slotInstallOnlyIfEmpty", "dataSetW", "dataTrySetW", "dataGetW",
+           "dataClearW", "dataOneSectionPerOp", "teardownRootLast", "teardownChildrenFirst", "teardownLoopsAllSlots",
+           "childrenCacheThreshold", "nodeCacheComparesChildren", "debugAbbrevThreshold", "debugWindowLo", "debugWindowHi"]
+
+
 def main():
     facts, notes = extract()
+    dynamic_used = []
+    if "--dynamic" in sys.argv:
+        dyn = json.load(open(sys.argv[sys.argv.index("--dynamic") + 1])).get("facts", {})
+        for k in DYNAMIC:
+            if k in facts and dyn.get(k) is not None:
+                if facts[k] is None or (k == "nodeCacheComparesChildren" and facts[k] is False):
+                    facts[k] = dyn[k]
+                    dynamic_used.append(k)
     if "--write-defaults" in sys.argv:
         assert all(v is not None for v in facts.values()), "defaults are taken from a tree on which every pattern matches"
         with open(DEFAULTS, "w") as f:
@@ -372,7 +447,9 @@ def main():
         with open(out, "w") as f:
             f.write(text)
     write_if_changed(os.path.join(os.path.dirname(out), "DriverFacts.lean"), render_driver(facts))
-    json.dump({"facts": facts, "changed": old != text}, sys.stdout, indent=1, sort_keys=True)
+    json.dump({"facts": facts, "changed": old != text, "dynamic": dynamic_used,
+               "wants_dynamic": [k for k in DYNAMIC if k in facts and (facts[k] is None or (k == "nodeCacheComparesChildren" and facts[k] is False))]},
+              sys.stdout, indent=1, sort_keys=True)
     print()
 
 
